@@ -37,7 +37,7 @@ ASSUMPTIONS = [
     "generic for a specialised annotation, non-set Set views, omitted argument where the annotation admits Missing/Any, unknown keyword arguments",
     "annotation forms outside the vocabulary (list[...], dict[...], bare Sequence/tuple, recursive aliases) are not generated",
 ]
-MINIMUMS = {"monitor:accepts-conforming": 15000, "monitor:rejects-violating": 20000, "monitor:stored-faithfully": 15000, "breakers_below_top": 3000, "set:terms": 400, "monitor:default-validated": 500, "monitor:required-argument": 300, "classes_with_two_generic_bases": 200, "values_checked_through_typevar": 1000, "values_checked_through_typevar-subclass": 1000, "values_checked_through_typevar-bound": 1000, "classes_with_implementation_like_attribute_names": 100}
+MINIMUMS = {"monitor:accepts-conforming": 15000, "monitor:rejects-violating": 20000, "monitor:stored-faithfully": 15000, "breakers_below_top": 3000, "set:terms": 400, "monitor:default-validated": 500, "monitor:required-argument": 300, "classes_with_two_generic_bases": 200, "values_checked_through_typevar": 1000, "values_checked_through_typevar-subclass": 1000, "values_checked_through_typevar-bound": 1000, "classes_with_implementation_like_attribute_names": 100, "same_named_subclass_probes": 4, "self_reference_probes": 37, "postponed_annotation_probes": 4, "type_arguments_spelled_through_aliases": 6}
 JOBS = {"quick": 4, "thorough": 16}
 LEVEL_TEXT = (
     "All annotation terms up to depth 1 (413 terms, quick) / depth 2 (4.6k terms, thorough) and seeded random terms up to depth 4 - covering None, bool, int, float, str, bytes, UUID, "
